@@ -334,6 +334,8 @@ func (e *engine) runC26() {
 		e.trackerCase(le, b, as, a, "peer-ids")
 		e.trackerCase(le, a, as, a, "self")
 	}
+	e.runC26Link()
+	e.runC26Roles()
 	for _, bad := range []string{"", "0OIl", "zzzz", "12D3KooW", "\xff\xfe", peer.ID([]byte{0x12, 0x02, 0xaa, 0xbb}).String(), peer.ID([]byte{0x00, 0x02, 0x08, 0x01}).String(), peer.ID(append([]byte{0x00, 0x23, 0x08, 0x01, 0x12, 0x1f}, keys[0].pub[:31]...)).String()} {
 		e.trackerCase(le, keys[0], bad, nil, "malformed-peer-id")
 	}
